@@ -15,6 +15,7 @@ import (
 	"os"
 	"os/exec"
 	"path/filepath"
+	"regexp"
 	"runtime"
 	"sort"
 	"strconv"
@@ -171,7 +172,7 @@ func runWorker(bin string, cfg *sim.WorkerCfg, scratch string, gomaxprocs int, t
 		rerr = json.Unmarshal(ob, out)
 	}
 	if werr != nil {
-		tail := tailFile(logf.Name(), 60)
+		tail := tailFile(logf.Name(), 200)
 		prog, _ := os.ReadFile(cfg.Progress)
 		msg := fmt.Sprintf("worker %d died: %v (announced run: %s)\n%s", cfg.Worker, werr, prog, tail)
 		if rerr == nil {
@@ -264,8 +265,18 @@ func doReplay(bin, prop, path, scratch string) int {
 	cfg := &sim.WorkerCfg{Prop: prop, Replay: abs, Workers: 1}
 	out, msg := runWorker(bin, cfg, scratch, 4, 30*time.Minute)
 	if out == nil || out.Replay == nil {
+		// the worker died: for a node-crash finding that is the reproduction, if the panic is the same one
+		rf := &sim.ReplayFile{}
+		if b, err := os.ReadFile(abs); err == nil && json.Unmarshal(b, rf) == nil && strings.Contains(rf.Fingerprint, "/node-crash/") {
+			sig := panicSignature(msg)
+			fmt.Printf("replay: node process died: %s\n", sig)
+			if rf.Fingerprint == prop+"/node-crash/"+sig {
+				fmt.Printf("replay: fingerprint=%s reproduced=true\n", rf.Fingerprint)
+				fmt.Printf("VIOLATION property=%s replay=%s\n", prop, abs)
+				return 1
+			}
+		}
 		fmt.Printf("replay: worker failed: %s\n", msg)
-		// a node crash during replay of a crash finding counts as reproduction only if the engine says so; here: trouble
 		return 2
 	}
 	r := out.Replay
@@ -308,6 +319,10 @@ func doCheck(bin, prop string, pc propCfg, tier string, seed uint64, scratch str
 		cfg := &sim.WorkerCfg{Prop: prop, Replay: filepath.Join(verifRoot, f.Replay), Workers: 1, Worker: 1000 + i}
 		out, msg := runWorker(bin, cfg, scratch, 4, 20*time.Minute)
 		if out == nil || out.Replay == nil {
+			if strings.Contains(f.Fingerprint, "/node-crash/") && f.Fingerprint == prop+"/node-crash/"+panicSignature(msg) {
+				knownReproduced[f.Fingerprint] = true
+				continue
+			}
 			fmt.Fprintf(os.Stderr, "known finding replay trouble: %s\n", msg)
 			continue
 		}
@@ -326,6 +341,12 @@ func doCheck(bin, prop string, pc propCfg, tier string, seed uint64, scratch str
 		cfg := &sim.WorkerCfg{Prop: prop, Replay: f, Workers: 1, Worker: 2000 + i}
 		out, msg := runWorker(bin, cfg, scratch, 4, 20*time.Minute)
 		if out == nil || out.Replay == nil {
+			if sig := panicSignature(msg); sig != "" {
+				regressionsReplayed++
+				fmt.Printf("violation: node process died while replaying the regression file of a defect recorded as fixed: %s\n", sig)
+				regressionLines = append(regressionLines, fmt.Sprintf("VIOLATION property=%s replay=%s", prop, f))
+				continue
+			}
 			fmt.Fprintf(os.Stderr, "regression replay trouble (%s): %s\n", f, msg)
 			continue
 		}
@@ -351,7 +372,8 @@ func doCheck(bin, prop string, pc propCfg, tier string, seed uint64, scratch str
 		workers = 1
 	}
 	per := (tc.Runs + workers - 1) / workers
-	outs := make([]*sim.WorkerOut, workers)
+	slotOuts := make([][]*sim.WorkerOut, workers)
+	slotCrashes := make([][]crashRec, workers)
 	msgs := make([]string, workers)
 	var wg sync.WaitGroup
 	gmp := []int{1, 4, 16, 2}
@@ -359,22 +381,42 @@ func doCheck(bin, prop string, pc propCfg, tier string, seed uint64, scratch str
 		wg.Add(1)
 		go func(w int) {
 			defer wg.Done()
-			cfg := &sim.WorkerCfg{Prop: prop, Tier: tier, MasterSeed: seed, Worker: w, Workers: workers, MaxRuns: per,
+			cfg := sim.WorkerCfg{Prop: prop, Tier: tier, MasterSeed: seed, Worker: w, Workers: workers, MaxRuns: per,
 				BudgetS: tc.BudgetS, MinimiseS: tc.MinimiseS, Known: knownFPs, ReplayDir: replayDir}
-			outs[w], msgs[w] = runWorker(bin, cfg, scratch, gmp[w%len(gmp)], time.Duration((tc.BudgetS*1.5+tc.MinimiseS*4+120)*float64(time.Second)))
+			slotOuts[w], slotCrashes[w], msgs[w] = runSlot(bin, cfg, scratch, gmp[w%len(gmp)], time.Duration((tc.BudgetS*1.5+tc.MinimiseS*4+120)*float64(time.Second)))
 		}(w)
 	}
 	wg.Wait()
+	var outs []*sim.WorkerOut
+	for _, so := range slotOuts {
+		outs = append(outs, so...)
+	}
+	// node crashes
+	crashByFP := map[string]*crashRec{}
+	crashCount := map[string]int{}
+	nCrashes := 0
+	for _, cs := range slotCrashes {
+		for i := range cs {
+			c := cs[i]
+			nCrashes++
+			crashCount[c.fp]++
+			if _, ok := crashByFP[c.fp]; !ok {
+				crashByFP[c.fp] = &c
+			}
+		}
+	}
 	// 3. aggregate
 	agg := &sim.WorkerOut{Counters: map[string]int64{}, Violations: map[string]*sim.FoundViolation{}}
 	states := map[string]struct{}{}
 	shapes := map[string]struct{}{}
 	died := 0
-	for w, o := range outs {
-		if msgs[w] != "" {
+	for _, m := range msgs {
+		if m != "" {
 			died++
-			fmt.Fprintf(os.Stderr, "%s\n", msgs[w])
+			fmt.Fprintf(os.Stderr, "%s\n", m)
 		}
+	}
+	for _, o := range outs {
 		if o == nil {
 			continue
 		}
@@ -408,6 +450,42 @@ func doCheck(bin, prop string, pc propCfg, tier string, seed uint64, scratch str
 			agg.Samples = append(agg.Samples, o.Samples...)
 		}
 		agg.Aborted = append(agg.Aborted, o.Aborted...)
+	}
+	agg.Counters["node_crashes"] += int64(nCrashes)
+	for fp, c := range crashByFP {
+		if !crashOwner(prop) {
+			agg.Counters["aborted_runs"] += int64(crashCount[fp])
+			if len(agg.Aborted) < 20 {
+				agg.Aborted = append(agg.Aborted, fmt.Sprintf("run %d seed %d: node process died (%s) — reported by the checks of C08/C03, counted as aborted here", c.runIdx, c.seed, c.msg))
+			}
+			continue
+		}
+		fv := &sim.FoundViolation{Violation: sim.Violation{Property: prop, Oracle: "node-crash", Fingerprint: fp,
+			Detail: "the node process died while executing a block: " + c.msg}, Seed: c.seed, Run: c.runIdx, Count: crashCount[fp]}
+		if _, isKnown := knownWhat[fp]; !isKnown {
+			// fetch the plan of the crashing run, minimise it with one process per candidate, write the replay file
+			gcfg := &sim.WorkerCfg{Prop: prop, Tier: tier, MasterSeed: seed, Worker: int(c.runIdx % uint64(workers)), Workers: workers, StartIter: c.iter, GenPlan: true}
+			gcfg.Worker = int(c.runIdx) - c.iter*workers
+			gout, gmsg := runWorker(bin, gcfg, scratch, 4, 5*time.Minute)
+			if gout == nil || len(gout.Samples) == 0 {
+				fmt.Fprintf(os.Stderr, "cannot regenerate the crashing plan: %s\n", gmsg)
+			} else {
+				plan := &sim.Plan{}
+				_ = json.Unmarshal(gout.Samples[0], plan)
+				ce := &crashEngine{bin: bin, prop: prop, scratch: scratch, sig: c.msg}
+				min, execs := sim.Minimise(ce, prop, plan, fp, time.Duration(tc.MinimiseS*float64(time.Second)))
+				rf := &sim.ReplayFile{Property: prop, Engine: pc.Engine, Fingerprint: fp, Oracle: "node-crash", Detail: c.tail, Replay: "exact",
+					MinimisedFromSteps: len(plan.Steps), MinimiseExecs: execs, Plan: min, Original: plan}
+				_ = os.MkdirAll(replayDir, 0755)
+				path := filepath.Join(replayDir, fmt.Sprintf("%s-%d.json", sim.SanitizeFP(fp), c.seed))
+				b, _ := json.MarshalIndent(rf, "", " ")
+				if os.WriteFile(path, b, 0644) == nil {
+					fv.ReplayPath = path
+				}
+				fv.Steps, fv.OrigSteps = len(min.Steps), len(plan.Steps)
+			}
+		}
+		agg.Violations[fp] = fv
 	}
 	wall := time.Since(start).Seconds()
 	// 4. verdict
@@ -580,3 +658,122 @@ func doSelfTest(bin, prop string, pc propCfg, seed uint64, scratch string, nseed
 	}
 	return 0
 }
+
+// ---------------------------------------------------------------------------------------------
+// node crashes: an un-recovered panic in a goroutine of the code under test kills the worker
+// process. The slot runner attributes it to the announced run, resumes behind it, and the crash
+// is reported as a violation of the properties that own node liveness (C08, C03); for other
+// properties the run counts as aborted.
+
+type crashRec struct {
+	fp, msg, tail string
+	runIdx, seed  uint64
+	iter          int
+}
+
+var reHex = regexp.MustCompile(`0x[0-9a-fA-F]+`)
+var reNum = regexp.MustCompile(`[0-9]+`)
+
+// panicSignature extracts "panic message @ first frame inside the repository" from a stderr tail.
+func panicSignature(tail string) string {
+	lines := strings.Split(tail, "\n")
+	msg := ""
+	start := -1
+	for i, l := range lines {
+		if strings.HasPrefix(l, "panic: ") || strings.HasPrefix(l, "fatal error: ") {
+			msg = l
+			start = i
+			break
+		}
+	}
+	if start < 0 {
+		return ""
+	}
+	frame := ""
+	for _, l := range lines[start:] {
+		t := strings.TrimSpace(l)
+		if strings.HasPrefix(t, "github.com/meshplus/bitxhub/") && !strings.Contains(t, "/verif/") {
+			frame = t
+			if k := strings.Index(frame, "("); k > 0 && strings.HasSuffix(frame, ")") {
+				// drop the argument list
+				if j := strings.LastIndex(frame, "("); j > 0 {
+					frame = frame[:j]
+				}
+			}
+			break
+		}
+	}
+	msg = reHex.ReplaceAllString(msg, "0x#")
+	msg = reNum.ReplaceAllString(msg, "#")
+	if len(msg) > 110 {
+		msg = msg[:110]
+	}
+	frame = strings.TrimPrefix(frame, "github.com/meshplus/bitxhub/")
+	return msg + " @ " + frame
+}
+
+// runSlot runs one worker slot to completion, resuming behind node crashes.
+func runSlot(bin string, base sim.WorkerCfg, scratch string, gmp int, timeout time.Duration) (outs []*sim.WorkerOut, crashes []crashRec, trouble string) {
+	start := 0
+	for attempt := 0; attempt < 60; attempt++ {
+		cfg := base
+		cfg.StartIter = start
+		out, msg := runWorker(bin, &cfg, scratch, gmp, timeout)
+		if out != nil {
+			outs = append(outs, out)
+		}
+		if msg == "" {
+			return
+		}
+		if strings.Contains(msg, "watchdog:") {
+			trouble = msg
+			return
+		}
+		sig := panicSignature(msg)
+		prog, _ := os.ReadFile(filepath.Join(scratch, fmt.Sprintf("wprog-%d", base.Worker)))
+		var runIdx, seed uint64
+		var iter int
+		if n, _ := fmt.Sscanf(string(prog), "%d %d %d", &runIdx, &seed, &iter); n != 3 || sig == "" {
+			trouble = msg
+			return
+		}
+		crashes = append(crashes, crashRec{fp: base.Prop + "/node-crash/" + sig, msg: sig, tail: msg, runIdx: runIdx, seed: seed, iter: iter})
+		start = iter + 1
+		if start >= base.MaxRuns {
+			return
+		}
+	}
+	trouble = "too many node crashes in one worker slot"
+	return
+}
+
+// crashEngine lets sim.Minimise shrink a crashing plan by re-executing candidates in fresh processes.
+type crashEngine struct {
+	bin, prop, scratch, sig string
+	n                       int
+}
+
+func (c *crashEngine) Name() string                                             { return "crash" }
+func (c *crashEngine) Generate(string, *sim.Rand, string) *sim.Plan             { return nil }
+func (c *crashEngine) SimplifyStep(string, json.RawMessage) []json.RawMessage   { return nil }
+func (c *crashEngine) SimplifyConfig(string, json.RawMessage) []json.RawMessage { return nil }
+func (c *crashEngine) Execute(prop string, p *sim.Plan, keep bool) *sim.Result {
+	res := sim.NewResult()
+	c.n++
+	rf := &sim.ReplayFile{Property: prop, Fingerprint: prop + "/node-crash/" + c.sig, Plan: p}
+	path := filepath.Join(c.scratch, fmt.Sprintf("crash-cand-%d.json", c.n))
+	b, _ := json.Marshal(rf)
+	_ = os.WriteFile(path, b, 0644)
+	cfg := &sim.WorkerCfg{Prop: prop, Replay: path, Workers: 1, Worker: 5000}
+	out, msg := runWorker(c.bin, cfg, c.scratch, 4, 5*time.Minute)
+	if out != nil && out.Replay != nil {
+		return res // survived
+	}
+	if panicSignature(msg) == c.sig {
+		res.Violate(prop, "node-crash", 0, c.sig, "node process died: %s", c.sig)
+		// Violate builds prop/node-crash/sig
+	}
+	return res
+}
+
+func crashOwner(prop string) bool { return prop == "C08" || prop == "C03" }
